@@ -5,6 +5,8 @@ use super::net::Net;
 pub enum Action {
     Deliver(usize, usize),
     Poll(usize),
+    /// the network accepts one outstanding send of `from` towards `to` (only with slow sends)
+    Accept(usize, usize),
 }
 
 pub trait Sched {
@@ -118,6 +120,7 @@ impl Sched for Starve {
             match a {
                 Action::Deliver(_, b) if *b != p => return i,
                 Action::Poll(q) if *q != p => return i,
+                Action::Accept(a, _) if *a != p => return i,
                 _ => {}
             }
         }
@@ -153,6 +156,7 @@ impl Pct {
         match a {
             Action::Deliver(x, y) => (0, *x, *y),
             Action::Poll(p) => (1, *p, 0),
+            Action::Accept(x, y) => (2, *x, *y),
         }
     }
 }
